@@ -220,7 +220,10 @@ def parse_output(text):
             cur['fresh'][int(f[1])] = float(f[2])
         elif ln.startswith('OP '):
             f = ln.split()
-            res['ops'].append((int(f[1]), f[2], ' '.join(f[3:])))
+            try:
+                res['ops'].append((int(f[1]), f[2], ' '.join(f[3:])))
+            except (ValueError, IndexError):
+                pass   # a line cut by the CPULIMIT handler (written from a signal handler in the middle of stdio output)
         elif ln.startswith('STATE '):
             f = ln.split()
             cur = dict(idx=int(f[1]), kind=f[2], cn={}, vr={}, fresh={}, complete=False)
@@ -248,7 +251,7 @@ def parse_output(text):
 BMF_GIVEUP = 'Unable to find a BMF allocation'
 
 
-def run_history(plan, timeout=25):
+def run_history(plan, timeout=90):
     if not os.path.exists(LMMSIM):
         raise dst.Infra('harness %s missing' % LMMSIM)
     env = {}
@@ -478,7 +481,7 @@ class LmmCheck(dst.Check):
             out.append(('crash-' + tag, 'lmmsim rc=%s during op %s (%s): %s' %
                         (res['rc'], a[0] if a else '?', a[1] if a else '?', ' | '.join(info) or ' | '.join(msg[-2:]))))
         if res['outcome'] == 'timeout' and self.hang_is_violation:
-            out.append(('hang-' + tag, '%s solver did not return (killed after 3 s of CPU time; a history normally takes '
+            out.append(('hang-' + tag, '%s solver did not return (killed after 20 s of CPU time; a history normally takes '
                         'milliseconds); last op completed: %s' % (plan['solver'], res['ops'][-1] if res['ops'] else '?')))
         reqs = requested_penalties(plan, res)
         seen = set()
